@@ -6,6 +6,12 @@
 //	sync <srcDir> <tgtDir> <incr> <found> <dir> <old> <oldName> <new> <newParent> <newName> => <call>…
 //	    command.genProcessFunction(srcDir, tgtDir, sink)(event)         (filer.sync / filer.backup; hook GenProcessFunctionVerif)
 //
+//	lsync <srcDir> <incr> <ev>;<ev>;… => @ <tree after event 1> @ <tree after event 2> … [!err|panic]
+//	    the same process function driving a REAL localsink.LocalSink on a fresh temp directory; <ev> =
+//	    <dir>,<old>,<oldName>,<new>,<newParent>,<newName>; a tree = sorted relative paths below the sink
+//	    directory (directories with a trailing '/', "-" when empty); the sequence stops at the first error
+//	    (as the subscription loop of filer.sync / filer.backup does) or panic.
+//
 // <old>/<new> ∈ {-, f, d} (absent, file, directory); <found> = what the sink's UpdateEntry reports;
 // <call> = D|<key>|<isDir>|<delChunks>  C|<key>  U|<key>|<newParentPath>.  "-" = empty string.
 // Entries carry mtime 31579200 (1971-01-01 12:00 UTC) so that the incremental date key is 1971-01-01
@@ -15,12 +21,16 @@ package main
 import (
 	"context"
 	"fmt"
+	"os"
+	"path/filepath"
+	"sort"
 	"strings"
 
 	"github.com/chrislusf/seaweedfs/weed/command"
 	"github.com/chrislusf/seaweedfs/weed/pb/filer_pb"
 	"github.com/chrislusf/seaweedfs/weed/replication"
 	"github.com/chrislusf/seaweedfs/weed/replication/sink"
+	"github.com/chrislusf/seaweedfs/weed/replication/sink/localsink"
 	"github.com/chrislusf/seaweedfs/weed/replication/source"
 	"github.com/chrislusf/seaweedfs/weed/util"
 
@@ -60,7 +70,7 @@ func (s *recSink) IsIncremental() bool                   { return s.incr }
 type mapConf map[string]string
 
 func (m mapConf) GetString(key string) string              { return m[key] }
-func (m mapConf) GetBool(key string) bool                  { return false }
+func (m mapConf) GetBool(key string) bool                  { return m[key] == "true" }
 func (m mapConf) GetInt(key string) int                    { return 0 }
 func (m mapConf) GetStringSlice(key string) []string       { return nil }
 func (m mapConf) SetDefault(key string, value interface{}) {}
@@ -123,6 +133,290 @@ func syncEv(a []string) {
 	}))
 }
 
+// ---- lsync: the process function in front of a real LocalSink
+
+type lev struct {
+	dir, old, oldName, new, newParent, newName string
+}
+
+func (e lev) tok() string {
+	return strings.Join([]string{tok(e.dir), e.old, tok(e.oldName), e.new, tok(e.newParent), tok(e.newName)}, ",")
+}
+
+func parseEvs(s string) []lev {
+	var out []lev
+	for _, t := range strings.Split(s, ";") {
+		f := strings.Split(t, ",")
+		if len(f) != 6 {
+			continue
+		}
+		out = append(out, lev{untok(f[0]), f[1], untok(f[2]), f[3], untok(f[4]), untok(f[5])})
+	}
+	return out
+}
+
+func fileEntry(kind, name string) *filer_pb.Entry {
+	if kind == "-" {
+		return nil
+	}
+	return &filer_pb.Entry{Name: name, IsDirectory: kind == "d", Attributes: &filer_pb.FuseAttributes{Mtime: mtime, FileMode: 0644}}
+}
+
+// tree lists what is below root: files as relative paths, directories with a trailing '/'
+func tree(tmp string) []string {
+	root := filepath.Join(tmp, "t")
+	var out []string
+	if des, err := os.ReadDir(tmp); err == nil {
+		for _, de := range des {
+			if de.Name() != "t" {
+				out = append(out, "!outside")
+			}
+		}
+	}
+	filepath.Walk(root, func(p string, info os.FileInfo, err error) error {
+		if err != nil {
+			return nil
+		}
+		rel, _ := filepath.Rel(root, p)
+		if info.IsDir() {
+			if rel != "." {
+				out = append(out, filepath.ToSlash(rel)+"/")
+			}
+		} else {
+			out = append(out, filepath.ToSlash(rel))
+		}
+		return nil
+	})
+	sort.Strings(out)
+	if len(out) == 0 {
+		return []string{"-"}
+	}
+	return out
+}
+
+// lsync args: srcDir incr events
+func lsync(a []string) {
+	var outs []string
+	func() {
+		tmp, err := os.MkdirTemp("", "c36ls")
+		if err != nil {
+			outs = []string{"!tmp"}
+			return
+		}
+		defer os.RemoveAll(tmp)
+		defer func() {
+			if r := recover(); r != nil {
+				outs = append(outs, "panic")
+			}
+		}()
+		s := &localsink.LocalSink{}
+		s.Initialize(mapConf{"sink.local.directory": tmp + "/t", "sink.local.is_incremental": map[bool]string{true: "true", false: "false"}[a[1] == "1"]}, "sink.local.")
+		s.SetSourceFiler(&source.FilerSource{})
+		fn := command.GenProcessFunctionVerif(untok(a[0]), tmp+"/t", s)
+		for _, e := range parseEvs(a[2]) {
+			ev := &filer_pb.EventNotification{OldEntry: fileEntry(e.old, e.oldName), NewEntry: fileEntry(e.new, e.newName), NewParentPath: e.newParent,
+				DeleteChunks: true, Signatures: []int32{7}}
+			outs = append(outs, "@")
+			err := fn(&filer_pb.SubscribeMetadataResponse{Directory: e.dir, EventNotification: ev})
+			outs = append(outs, tree(tmp)...)
+			if err != nil {
+				outs = append(outs, "!err")
+				return
+			}
+		}
+	}()
+	tr.Op("lsync", a, outs)
+}
+
+// ---- generator of event sequences from a simulated source tree
+
+type srcTree struct {
+	files, dirs map[string]bool
+}
+
+func ancestors(p string) []string {
+	var out []string
+	for d := dirOf(p); d != "/"; d = dirOf(d) {
+		out = append(out, d)
+	}
+	return out
+}
+
+func (t *srcTree) free(p string) bool { // p can be created
+	if t.files[p] || t.dirs[p] {
+		return false
+	}
+	for _, d := range ancestors(p) {
+		if t.files[d] {
+			return false
+		}
+	}
+	return true
+}
+func (t *srcTree) add(p string, dir bool) {
+	if dir {
+		t.dirs[p] = true
+	} else {
+		t.files[p] = true
+	}
+	for _, d := range ancestors(p) {
+		t.dirs[d] = true
+	}
+}
+func under(p, d string) bool { return p == d || strings.HasPrefix(p, d+"/") }
+func (t *srcTree) remove(p string) {
+	for _, m := range []map[string]bool{t.files, t.dirs} {
+		for k := range m {
+			if under(k, p) {
+				delete(m, k)
+			}
+		}
+	}
+}
+func (t *srcTree) move(p, q string) {
+	for _, m := range []map[string]bool{t.files, t.dirs} {
+		var ks []string
+		for k := range m {
+			if under(k, p) {
+				ks = append(ks, k)
+			}
+		}
+		for _, k := range ks {
+			delete(m, k)
+		}
+		for _, k := range ks {
+			m[q+k[len(p):]] = true
+		}
+	}
+	for _, d := range ancestors(q) {
+		t.dirs[d] = true
+	}
+}
+func (t *srcTree) present() []string {
+	var ks []string
+	for k := range t.files {
+		ks = append(ks, k)
+	}
+	for k := range t.dirs {
+		ks = append(ks, k)
+	}
+	sort.Strings(ks)
+	return ks
+}
+
+func kindOf(dir bool) string {
+	if dir {
+		return "d"
+	}
+	return "f"
+}
+
+// genSeq: mostly events a filer could emit for the simulated tree, sometimes an arbitrary one
+func genSeq(r *hx.Rng, universe []string, n int) []lev {
+	t := &srcTree{files: map[string]bool{}, dirs: map[string]bool{}}
+	var evs []lev
+	for len(evs) < n {
+		p := r.Pick(universe)
+		q := r.Pick(universe)
+		if r.Chance(1, 10) { // arbitrary event, the tree is not updated
+			k := r.Pick([]string{"f", "d"})
+			switch r.Intn(3) {
+			case 0:
+				evs = append(evs, lev{dirOf(p), "-", "", k, dirOf(p), baseName(p)})
+			case 1:
+				evs = append(evs, lev{dirOf(p), k, baseName(p), "-", "", ""})
+			default:
+				evs = append(evs, lev{dirOf(p), k, baseName(p), k, dirOf(q), baseName(q)})
+			}
+			continue
+		}
+		pres := t.present()
+		switch c := r.Intn(10); {
+		case c < 4 || len(pres) == 0: // create
+			if !t.free(p) {
+				continue
+			}
+			dir := r.Chance(1, 4)
+			t.add(p, dir)
+			evs = append(evs, lev{dirOf(p), "-", "", kindOf(dir), dirOf(p), baseName(p)})
+		case c < 6: // delete
+			p = r.Pick(pres)
+			k := kindOf(t.dirs[p])
+			t.remove(p)
+			evs = append(evs, lev{dirOf(p), k, baseName(p), "-", "", ""})
+		case c < 7: // update in place
+			p = r.Pick(pres)
+			k := kindOf(t.dirs[p])
+			evs = append(evs, lev{dirOf(p), k, baseName(p), k, dirOf(p), baseName(p)})
+		default: // rename
+			p = r.Pick(pres)
+			if under(q, p) || !t.free(q) {
+				continue
+			}
+			k := kindOf(t.dirs[p])
+			t.move(p, q)
+			evs = append(evs, lev{dirOf(p), k, baseName(p), k, dirOf(q), baseName(q)})
+		}
+	}
+	return evs
+}
+
+func evsTok(evs []lev) string {
+	var ts []string
+	for _, e := range evs {
+		ts = append(ts, e.tok())
+	}
+	return strings.Join(ts, ";")
+}
+
+func genLsync(a *hx.Args, r *hx.Rng) {
+	cr := func(p, k string) lev { return lev{dirOf(p), "-", "", k, dirOf(p), baseName(p)} }
+	rm := func(p, k string) lev { return lev{dirOf(p), k, baseName(p), "-", "", ""} }
+	mv := func(p, q, k string) lev { return lev{dirOf(p), k, baseName(p), k, dirOf(q), baseName(q)} }
+	// fixed scenarios first (coverage independent of the seed)
+	for _, sc := range [][]lev{
+		{cr("/data/x", "f"), mv("/data/x", "/data/d/y", "f")},
+		{cr("/data/d/y", "f"), rm("/data/d", "d")},
+		{cr("/data/d/y", "f"), rm("/data/d/y", "f"), rm("/data/d", "d")},
+		{cr("/data/d", "d"), cr("/data/d/y", "f"), mv("/data/d/y", "/data/d/y", "f"), mv("/data/d/y", "/x", "f")},
+		{cr("/dat/x", "f"), mv("/dat/x", "/data/x", "f")},
+		{cr("/data2/x", "f")},
+		{cr("/data/d/y", "f"), mv("/data/d", "/data/e", "d")},
+		{cr("/data/.uploads/a.part", "f"), cr("/data/x", "f"), rm("/data/.uploads/a.part", "f")},
+		{cr("/data/x", "f"), cr("/data/x/z", "f")},
+	} {
+		for _, incr := range []string{"0", "1"} {
+			lsync([]string{"/data", incr, evsTok(sc)})
+		}
+	}
+	in := []string{"/data/x", "/data/d/y", "/data/d", "/data/d/z", "/data/e", "/data/x/z"}
+	if a.Thorough() {
+		in = append(in, "/data/d/y/w", "/data/e/y", "/data/dd")
+	}
+	// paths inside /data three times as likely as the adversarial neighbours
+	universe := []string{"/data2/x", "/dat/x", "/datax", "/x", "/data/.uploads/a.part"}
+	if a.Thorough() {
+		universe = append(universe, "/data2", "/d/data/x")
+	}
+	for i := 0; i < 3; i++ {
+		universe = append(universe, in...)
+	}
+	for i := 0; i < a.N(150); i++ {
+		src := "/data"
+		switch r.Intn(8) {
+		case 0:
+			src = "/data/"
+		case 1:
+			src = "/"
+		}
+		incr := "0"
+		if r.Chance(1, 6) {
+			incr = "1"
+		}
+		lsync([]string{src, incr, evsTok(genSeq(r, universe, 1+r.Intn(5)))})
+	}
+}
+
 func replay(ops [][]string) {
 	for _, o := range ops {
 		switch {
@@ -130,6 +424,8 @@ func replay(ops [][]string) {
 			repl(o[1:])
 		case o[0] == "sync" && len(o) == 11:
 			syncEv(o[1:])
+		case o[0] == "lsync" && len(o) == 4:
+			lsync(o[1:])
 		}
 	}
 }
@@ -207,4 +503,7 @@ func main() {
 			}
 		}
 	}
+
+	// ---- the same process function in front of a real LocalSink: event sequences, tree after every event
+	genLsync(a, r)
 }
